@@ -5,20 +5,27 @@ not exist yet are skipped."""
 import importlib
 
 MODULES = ['translator.py2coq', 'translator.fwd2coq', 'translator.admin2coq']
+# which properties' theorems are stated over the text a translator generates
+DEPENDENTS = {'translator.py2coq': {'C13', 'C18'}, 'translator.fwd2coq': {'C17'}, 'translator.admin2coq': {'C18'}}
 
 
-def regenerate():
+def regenerate(cid=None):
+    """Regenerate every translated file.  Errors are reported only when `cid` is None or depends
+    on the translator that failed (a construct outside one translator's whitelist is a broken
+    obligation of the properties proved over its output, not of the others)."""
     msgs = []
     for name in MODULES:
+        mine = cid is None or cid in DEPENDENTS.get(name, set())
         try:
             mod = importlib.import_module(name)
         except ModuleNotFoundError as e:
             if e.name == name:
                 continue
-            msgs.append('ERROR importing %s: %s' % (name, e))
+            msgs.append(('ERROR' if mine else 'note') + ' importing %s: %s' % (name, e))
             continue
         try:
-            msgs.extend(mod.regenerate())
+            out = mod.regenerate()
         except Exception as e:      # fail closed
-            msgs.append('ERROR %s: %s' % (name, e))
+            out = ['ERROR %s: %s' % (name, e)]
+        msgs.extend(m if mine or not m.startswith('ERROR') else 'note (other property): ' + m for m in out)
     return msgs
